@@ -6,6 +6,7 @@ import os
 from . import build, tlc, table
 from .common import CheckBroken, run as sh
 
+IO_OPS = ("ExportCloud", "ExportSecret", "ExportCts", "ImportCloud", "ImportSecret", "ImportCts")
 ORDER = {"NewCt": ("a", "k"), "Encrypt": ("k", "a", "i", "b"), "Const": ("k", "a", "i", "b"),
          "Gate": ("k", "g", "a", "i", "a1", "i1", "a2", "i2"), "Mux": ("k", "a", "i", "a1", "i1", "a2", "i2", "a3", "i3"),
          "Decrypt": ("k", "a", "i"), "ExportCloud": ("k",), "ExportSecret": ("k",), "ExportCts": ("a",), "ImportCts": ("a",), "Delete": ("o",)}
@@ -31,7 +32,7 @@ def to_text(files, kind, seed, path, first_id=0):
             f.write("prog %d %d %d\n" % (first_id + q, cfg, seed * 1000 + q))
             for ln in open(fn):
                 o = json.loads(ln)
-                f.write(" ".join([("@" if o.get("th") == "helper" else "") + o["op"]] + [str(o[k]) for k in ORDER.get(o["op"], ())]) + "\n")
+                f.write(" ".join([("@" if o.get("th") == "helper" else "") + ("%" if o.get("tr") == "file" and o["op"] in IO_OPS else "") + o["op"]] + [str(o[k]) for k in ORDER.get(o["op"], ())]) + "\n")
                 steps += 1
             f.write("end\n")
             n += 1
